@@ -109,6 +109,10 @@ class JobResult:
             self.d["faults"][k] = self.d["faults"].get(k, 0) + n
         for k, n in ((res.get("end") or {}).get("probes") or {}).items():
             self.probe(k, n)
+        for rec in res["records"]:
+            if rec[0] == "out" and rec[2] == "sim" and rec[3].startswith("state-drift"):
+                for key in rec[3].split()[2:]:
+                    self.probe("process_state_drift:" + key)
         self.d["steps"] += count_records(res, "sched") + count_records(res, "op")
         self.d["boundaries"] += count_records(res, "done")
 
